@@ -305,7 +305,22 @@ func ReadFromSTL(i io.Reader, opts STLOptions) (o *Subtitles, err error) {
 func readNBytes(i io.Reader, c int) (o []byte, err error) {
 	o = make([]byte, c)
 	var n int
-	if n, err = io.ReadFull(i, o); err != nil {
+	// Like io.ReadFull, except that an error other than io.EOF is kept when it comes together with the last
+	// bytes of the block: io.ReadFull drops it, and a stream that then reports io.EOF would make the caller
+	// return a truncated list without an error
+	for n < c && err == nil {
+		var nn int
+		nn, err = i.Read(o[n:])
+		n += nn
+	}
+	if err == io.EOF {
+		if n == c {
+			err = nil
+		} else if n > 0 {
+			err = io.ErrUnexpectedEOF
+		}
+	}
+	if err != nil {
 		if err == io.EOF {
 			return
 		}
